@@ -23,10 +23,12 @@ fn factory_for(id: &str) -> Option<(&'static str, Factory)> {
         "C03" => ("C03", |t| Box::new(props::c03::C03::new(t)) as Box<dyn Property>),
         "C12" => ("C12", |t| Box::new(props::c12::C12::new(t)) as Box<dyn Property>),
         "C04" => ("C04", |t| Box::new(props::c04::C04::new(t)) as Box<dyn Property>),
+        "C05" => ("C05", |t| Box::new(props::c05::C05::new(t)) as Box<dyn Property>),
         "C07" => ("C07", |t| Box::new(props::c07::C07::new(t)) as Box<dyn Property>),
         "C08" => ("C08", |t| Box::new(props::c08::C08::new(t)) as Box<dyn Property>),
         "C15" => ("C15", |t| Box::new(props::c15::C15::new(t)) as Box<dyn Property>),
         "C14" => ("C14", |t| Box::new(props::c14::C14::new(t)) as Box<dyn Property>),
+        "C10" => ("C10", |t| Box::new(props::c10::C10::new(t)) as Box<dyn Property>),
         "C11" => ("C11", |t| Box::new(props::c11::C11::new(t)) as Box<dyn Property>),
         _ => return None,
     })
